@@ -22,15 +22,108 @@ class C04(c01.C01):
                          'models.judged.with_portfolio_rule_object_shared_by_households',
                          'models.judged.with_prefix_related_market_codes_and_household_in_both',
                          'models.judged.with_three_asset_portfolio',
-                         'models.judged.with_households_buying_in_another_regions_market')
+                         'models.judged.with_households_buying_in_another_regions_market',
+                         'retry_after_market_refusal.judged',
+                         'models.judged.with_getter_results_emptied_by_the_caller')
     which = ('markets', 'ledger')
 
     def make_case(self, rng, idx, tier):
+        if idx % 16 == 11:
+            # the goods market (declared first) has no supplier yet: main() refuses the model; the caller adds the missing
+            # business - or names one of two candidates as the supplier - and builds again on the same objects
+            return {'kind': 'retry_after_market_refusal', 'why': rng.choice(['no_supplier', 'two_candidates']),
+                    'G': [float(rng.randint(10, 30)) for _ in range(6)], 'a1': round(rng.uniform(0.5, 0.8), 2),
+                    'a2': round(rng.uniform(0.1, 0.4), 2), 'tax': round(rng.uniform(0.1, 0.3), 2), 'attempts': rng.choice([1, 2])}
+        if idx % 16 == 3:
+            case = c01.gen_case(rng, idx, tier)
+            case.setdefault('build_opts', {})['mutate_returned_lists'] = True
+            return case
         case = c01.gen_case(rng, idx, tier)
         return case
 
+    def run_retry(self, case):
+        import contextlib, io
+        from sfc_models.models import Model, Country
+        from sfc_models.sector import Market, Sector
+        from sfc_models.sector_definitions import Household, ConsolidatedGovernment, FixedMarginBusiness, TaxFlow
+        from vf import monitors
+        rec = monitors.Recorder()
+        T = 4
+        mod = Model()
+        ca = Country(mod, 'CA', 'CA')
+        good = Market(ca, 'GOOD', 'goods')          # first in the list: it is refused before anything else is generated
+        second = None
+        if case['why'] == 'two_candidates':
+            bus = FixedMarginBusiness(ca, 'BUS', 'business')
+            second = Sector(ca, 'BUS2', 'a second candidate', has_F=True)
+            second.AddVariable('SUP_GOOD', 'supply of goods', '')
+        lab = Market(ca, 'LAB', 'labour')
+        gov = ConsolidatedGovernment(ca, 'GOV', 'government')
+        hh = Household(ca, 'HH', 'household', alpha_income=case['a1'], alpha_fin=case['a2'])
+        TaxFlow(ca, 'TF', 'tax flow', case['tax'])
+        gov.SetExogenous('DEM_GOOD', list(case['G']))
+        mod.MaxTime = T
+        refused = 0
+        with contextlib.redirect_stdout(io.StringIO()):
+            for _ in range(case['attempts']):
+                try:
+                    mod.main()
+                    rec.violate('market_without_unique_supplier_not_refused', {'why': case['why']})
+                    return {'verdict': 'violated', 'shape': 'retry|' + case['why'], 'counters': rec.counters, 'violations': rec.violations}
+                except Exception:
+                    refused += 1
+            if case['why'] == 'no_supplier':
+                bus = FixedMarginBusiness(ca, 'BUS', 'business')
+            else:
+                good.AddSupplier(second, '0.25*DEM_GOOD')      # the second candidate gets a quarter; BUS is the residual supplier
+                good.AddSupplier(bus)
+            try:
+                mod.main()
+            except Exception as e:
+                return {'verdict': 'notjudged', 'shape': 'retry|' + case['why'] + '|' + type(e).__name__, 'counters': rec.counters,
+                        'obs': {'err': repr(e)[:300]}}
+        V = mod.EquationSolver.TimeSeries
+        rec.count('retry_after_market_refusal.judged')
+        tol = 1e-4
+        for k in range(1, T + 1):
+            d = lambda n: V[n][k] - V[n][k - 1]
+            dem = V['HH__DEM_GOOD'][k] + V['GOV__DEM_GOOD'][k]
+            sup_bus = V['BUS__SUP_GOOD'][k]
+            sup_2 = V['BUS2__SUP_GOOD'][k] if second is not None else 0.0
+            checks = [('market_demand_not_sum_of_declared_demands', V['GOOD__DEM_GOOD'][k], dem),
+                      ('market_supply_not_equal_demand', V['GOOD__SUP_GOOD'][k], V['GOOD__DEM_GOOD'][k]),
+                      ('supplier_amounts_do_not_add_up_to_supply', sup_bus + sup_2, V['GOOD__SUP_GOOD'][k]),
+                      ('sector_ledger_not_sum_of_declared_flows', d('HH__F'), V['HH__SUP_LAB'][k] - V['HH__DEM_GOOD'][k] - V['HH__T'][k]),
+                      ('sector_ledger_not_sum_of_declared_flows', d('GOV__F'), V['GOV__T'][k] - V['GOV__DEM_GOOD'][k]),
+                      ('sector_ledger_not_sum_of_declared_flows', d('BUS__F'), sup_bus - V['BUS__DEM_LAB'][k])]
+            if second is not None:
+                checks.append(('sector_ledger_not_sum_of_declared_flows', d('BUS2__F'), sup_2))
+                checks.append(('participant_variable_not_market_assigned_amount', sup_2, 0.25 * V['GOOD__DEM_GOOD'][k]))
+            for kind, got, exp in checks:
+                if abs(got - exp) > tol * max(1.0, abs(exp)):
+                    rec.violate(kind, {'k': k, 'got': got, 'expected': exp, 'after': 'main() refused (%s, %d time(s)), the caller completed the model and built again' % (case['why'], refused)})
+                    break
+            if rec.violations:
+                break
+        return {'verdict': 'violated' if rec.violations else 'held', 'nontrivial': True, 'shape': 'retry|' + case['why'],
+                'counters': rec.counters, 'violations': rec.violations, 'obs': {'refusals': refused}}
+
     def run_case(self, case):
-        return c01.solve_and_judge(case, self.which, in_situ=False)
+        if case.get('kind') == 'retry_after_market_refusal':
+            return self.run_retry(case)
+        res = c01.solve_and_judge(case, self.which, in_situ=False)
+        if case.get('build_opts', {}).get('mutate_returned_lists') and res['verdict'] == 'notjudged':
+            # the build failed although the only unusual thing the caller did was to empty lists it had been handed:
+            # does the same model build when the caller leaves them alone?
+            from vf.gen import modelspec as M
+            opts = dict(case['build_opts'], mutate_returned_lists=False)
+            plain = M.build(case['spec'], ext_first=case.get('ext_first', True) or bool(case['spec'].get('row')), **opts)
+            if plain.error is None:
+                res = {'verdict': 'violated', 'nontrivial': True, 'shape': res.get('shape', '-'), 'counters': res.get('counters', {}),
+                       'violations': [{'kind': 'emptying_a_returned_list_changed_the_model',
+                                       'detail': {'failure_with_emptied_lists': res.get('obs', {}).get('error'),
+                                                  'note': 'the same specification builds and solves when the caller leaves the returned lists alone'}}]}
+        return res
 
 
 PROP = C04()
